@@ -127,6 +127,7 @@ def _plan(draw, max_rows):
         op["cols"] = [cols[j]["name"] for j in draw(st.permutations(range(len(cols))))[:k]]
         if special == 0 and draw(st.integers(0, 2)):
             op["cols"] = [c["name"] for c in cols]
+    draw(gen.decorate(fp))
     plan = {"frame": fp, "op": op}
     # how the receiver came to be, a module-level default, and whether the call is made twice
     plan["receiver"] = draw(st.sampled_from(["built", "built", "shallow_copy", "deep_copy", "view_rows", "derived"]))
